@@ -19,6 +19,13 @@
 (*                      the two steps renews an entry that is then deleted -  *)
 (*                      TLC refutes it (ISr_scan_then_delete.cfg).            *)
 (*                                                                            *)
+(* Design = "shared_slot": the table is keyed by (endpoint, system,            *)
+(*                      component) instead of (channel, system, component) (a  *)
+(*                      seeded change the test suite accepts): two senders    *)
+(*                      that differ in their channel only share one entry -   *)
+(*                      the second one's first heartbeat gets no burst; TLC   *)
+(*                      refutes it (ISr_shared_slot.cfg).                     *)
+(*                                                                            *)
 (* Refinement statement: the bursts the implementation sends are exactly the  *)
 (* ones the rule SrRule!Due prescribes for the heartbeat times seen.          *)
 EXTENDS Integers, Sequences, FiniteSets, SrRule
@@ -49,12 +56,15 @@ Tick ==
   /\ now' = now + 1
   /\ UNCHANGED <<last, hbs, bursts, cleaned, marked>>
 
+\* the table entry of a sender: its own - a sender is (channel, system, component)
+K(s) == IF Design = "shared_slot" THEN CHOOSE x \in Senders : TRUE ELSE s
+
 \* onEventFrame for a heartbeat of sender s (at most one per sender per tick keeps the model finite)
 Heartbeat(s) ==
   /\ (IF hbs[s] = <<>> THEN TRUE ELSE hbs[s][Len(hbs[s])] < now)
   /\ hbs' = [hbs EXCEPT ![s] = Append(@, now)]
-  /\ IF last[s] < 0 \/ now - last[s] >= Period
-     THEN /\ last' = [last EXCEPT ![s] = now]
+  /\ IF last[K(s)] < 0 \/ now - last[K(s)] >= Period
+     THEN /\ last' = [last EXCEPT ![K(s)] = now]
           /\ bursts' = [bursts EXCEPT ![s] = Append(@, now)]
      ELSE UNCHANGED <<last, bursts>>
   /\ UNCHANGED <<now, cleaned, marked>>
